@@ -45,6 +45,12 @@ fn main() {
         }
     }
 
+    if prop == "show" {
+        let rp = load_replay(std::path::Path::new(&args[2])).expect("cannot load");
+        println!("{} :: {}", rp.signature, rp.detail);
+        println!("{}", ppgcheck::chain::trace_case(&rp.scenario));
+        return;
+    }
     if prop == "survey" {
         let of = arg_val(&args, "--of").unwrap_or_else(|| "C06".into());
         let spec = spec_for(&of).expect("unknown property");
